@@ -13,7 +13,7 @@ def model(b, a, x, mem, zero):
         for k, bk in enumerate(b):
             acc += bk * (x[n - k] if n - k >= 0 else zero)
         for k, ak in enumerate(a):
-            if k >= 1:
+            if k >= 1 and ak != 0:
                 acc -= ak * (y[n - k] if n - k >= 0 else mem[k - n - 1])
         y.append(acc / a[0])
     return y
@@ -32,6 +32,8 @@ class filter:
                         for memkind in ("none", "list", "gen", "callable"):
                             yield {"b": [str(v) for v in b], "a": [str(v) for v in a], "x": [str(v) for v in xs],
                                    "mem": memkind, "zero": "0"}
+        for b, a in (([1], [F(3, 2)]), ([F(1, 2), 1], [F(-2, 3), F(1, 4)]), ([2], [F(5, 4), F(-1, 2)])):
+            yield {"b": [str(v) for v in b], "a": [str(v) for v in a], "x": [str(v) for v in xs], "mem": "list", "zero": "0"}
         for b, a in (([0] * 8 + [2], [1]), ([1], [1] + [0] * 7 + [-1]), ([0] * 16 + [1], [-1])):
             yield {"b": [str(v) for v in b], "a": [str(v) for v in a], "x": [str(F(i + 1)) for i in range(20)], "mem": "list", "zero": "0"}
 
@@ -40,10 +42,9 @@ class filter:
         from audiolazy import LinearFilter
         b, a = [F(v) for v in inp["b"]], [F(v) for v in inp["a"]]
         x, zero = [F(v) for v in inp["x"]], F(inp["zero"])
-        # exact arithmetic on the real code needs coefficients that survive the text round trip: ints
-        if any(v.denominator != 1 for v in b + a):
-            return None
-        bi, ai = [int(v) for v in b], [int(v) for v in a]
+        # integer coefficients survive the text round trip exactly; Fractions are evaluated as floats (tolerance)
+        exact = all(v.denominator == 1 for v in b + a)
+        bi, ai = [int(v) if v.denominator == 1 else v for v in b], [int(v) if v.denominator == 1 else v for v in a]
         la = len(a)
         while la > 1 and a[la - 1] == 0:
             la -= 1
@@ -70,6 +71,6 @@ class filter:
             got.append(rr[1])
             if src.pulled != n + 1:
                 return "output %d after %d input reads (exactly one output per input)" % (n, src.pulled)
-        if len(got) != len(exp) or any(F(g_) != e for g_, e in zip(got, exp)):
+        if len(got) != len(exp) or any((F(g_) != e) if exact else (abs(float(g_) - float(e)) > 1e-9 * max(1, abs(float(e)))) for g_, e in zip(got, exp)):
             return "LinearFilter(%r, %r)(x, memory=%s): got %r, difference equation gives %r" % (bi, ai, inp["mem"], [str(v) for v in got], [str(v) for v in exp])
         return None
